@@ -59,6 +59,7 @@ ZeroV(t) ==
     [] t.k \in {"float32", "float64"} -> ZV("float", "0")
     [] t.k \in {"string", "ustr", "uany"} -> ZV("string", "")
     [] t.k = "dur" -> ZV("dur", "0")
+    [] t.k = "re" -> NilV("re")
     [] t.k \in {"ptr", "slice", "map"} -> NilV(t.k)
     [] t.k = "array" -> [k |-> "array", xs |-> [i \in 1..t.n |-> ZeroV(t.e)]]
     [] t.k = "struct" -> [k |-> "struct", f |-> [i \in 1..Len(t.f) |-> ZeroV(t.f[i].t)]]
